@@ -86,10 +86,10 @@ def _specificity(pattern: str) -> int:
 
 
 def section_winners(sections: list[tuple[str, dict[str, Any]]], module: str, option: str,
-                    skip: int | None = None) -> list[int | None]:
+                    skip: "set[int] | frozenset[int]" = frozenset()) -> list[int | None]:
     """Indices of the sections that may decide `option` for `module` (several only where the documentation
     is ambiguous); [None] if no matching section sets it."""
-    cands = [i for i, (p, s) in enumerate(sections) if i != skip and option in s and matches(p, module)]
+    cands = [i for i, (p, s) in enumerate(sections) if i not in skip and option in s and matches(p, module)]
     if not cands:
         return [None]
     stars = [i for i in cands if shape(sections[i][0]) == "lone-star"]
@@ -117,7 +117,7 @@ def section_winners(sections: list[tuple[str, dict[str, Any]]], module: str, opt
 
 def effective(sections: list[tuple[str, dict[str, Any]]], module: str, option: str, *, inline: dict[str, Any] | None = None,
               cmdline: dict[str, Any] | None = None, glob: dict[str, Any] | None = None, default: Any = NOTHING,
-              skip: int | None = None) -> list[tuple[Any, str]]:
+              skip: "set[int] | frozenset[int]" = frozenset()) -> list[tuple[Any, str]]:
     """Acceptable (value, decided-by) pairs for `option` in `module` under the documented precedence."""
     if inline and option in inline:
         return [(inline[option], "inline")]
